@@ -100,6 +100,11 @@ pub fn check(case: &SchedCase, rr: &RunRec, stats: &mut C08Stats) -> Vec<Viol> {
             let parsed = refcodec::parse_file(&deleted_bytes);
             for (_, _, r) in &parsed.recs {
                 if let Rec::Append(id, p) = r {
+                    // (generated payloads are unique except the empty one: an entry with an empty payload that was
+                    // truncated away and later appended again with the same id cannot be told from its live namesake)
+                    if p.is_empty() {
+                        continue;
+                    }
                     if let Some((mid, mp)) = live_model.log.get(&id.1) {
                         if mid == id && mp == p {
                             out.push(v(case, "live_entry_deleted", format!("event {}: chunk {} deleted although it stores entry {:?}, which is neither purged nor truncated (purged={:?})", i, pid, id, live_model.st.purged)));
